@@ -15,3 +15,4 @@ INVARIANT DocSliding
 INVARIANT DocFading
 INVARIANT MonotoneInLatest
 INVARIANT Emit
+INVARIANT EmitQF2
